@@ -115,7 +115,39 @@ class Clean:
             n = self.f.name('U')
             self.undefined.append(n)
             return pre + '<%s>' % n
-        return pre + '(' + self.f.lit('v') + ' || ' + self.f.lit('v') + ')'
+        if k < 0.92:
+            return pre + '(' + self.f.lit('v') + ' || ' + self.f.lit('v') + ')'
+        # a placeholder that is the last item of the word in its own branch, beside longer alternatives
+        # (used to be rejected as "Ambiguous grammar": finding N2 placeholder_beside_longer_alternative_rejected)
+        def ph():
+            n = self.f.name('U')
+            self.undefined.append(n)
+            return '<%s>' % n
+
+        def longer(d):
+            j = r.random()
+            a = self.f.lit('a')
+            if d <= 0 or j < 0.35:
+                return a + '(' + self.f.lit('b') + '|' + self.f.lit('c') + ')'
+            if j < 0.55:
+                return a + '[' + self.f.lit('b') + ']'
+            if j < 0.75:
+                return a + ph()
+            # nested: another choice with a placeholder branch further inside
+            return a + '(' + '|'.join(r.sample([ph(), longer(d - 1)], 2)) + ')'
+
+        def ph_def():
+            # the placeholder reached through a definition: <D> ::= <U>;  or  <D> ::= (<U> | a(b|c));
+            n = self.f.name('D')
+            rhs = ph() if r.random() < 0.5 else '(' + ' | '.join(r.sample([ph(), longer(0)], 2)) + ')'
+            self.defs.append((n, None, rhs))
+            return '<%s>' % n
+
+        alts = [ph_def() if r.random() < 0.3 else ph(), longer(2)]
+        if r.random() < 0.3:
+            alts.append(self.f.lit('d'))
+        r.shuffle(alts)
+        return pre + '(' + '|'.join(alts) + ')'
 
     def build(self, cmd='cmd', nvariants=None):
         r = self.r
@@ -349,6 +381,39 @@ def tokens_spaces(text):
     return out
 
 
+def tokens_joints(text):
+    """Zero-width token boundaries of `text` where blank material may be inserted without changing the tree
+    (outside descriptions, commands, nonterminal names and escapes): before a postfix `...`, after `(`/`[`,
+    before `)`/`]`, before `;`.  -> list of indices (insert before text[i])."""
+    out = []
+    i, n = 0, len(text)
+    while i < n:
+        if text.startswith('{{{', i):
+            j = text.find('}}}', i)
+            i = n if j < 0 else j + 3
+        elif text[i] == '"':
+            j = i + 1
+            while j < n and text[j] != '"':
+                j += 2 if text[j] == '\\' else 1
+            i = j + 1
+        elif text[i] == '<':
+            j = text.find('>', i)
+            i = n if j < 0 else j + 1
+        elif text[i] == '\\':
+            i += 2
+        elif text.startswith('...', i):
+            if i > 0 and text[i - 1] != ' ':
+                out.append(i)
+            i += 3
+        else:
+            if text[i] in '([' and i + 1 < n and text[i + 1] != ' ':
+                out.append(i + 1)
+            elif text[i] in ')];' and i > 0 and text[i - 1] != ' ':
+                out.append(i)
+            i += 1
+    return out
+
+
 def relayout(stmts, rng, heavy=False):
     """Joins statements with random blank material at token boundaries: spaces, tabs, newlines,
     form feeds, # comments, blank lines; `::=` or `=`; last `;` optionally dropped."""
@@ -369,13 +434,17 @@ def relayout(stmts, rng, heavy=False):
     for si, st in enumerate(stmts):
         if rng.random() < 0.5:
             st = st.replace(' ::= ', ' = ', 1)
-        idx = tokens_spaces(st)
+        idx = [(i, 1) for i in tokens_spaces(st)] + [(i, 0) for i in tokens_joints(st)]
+        idx.sort()
         parts = []
         last = 0
-        for i in idx:
+        for i, width in idx:
             parts.append(st[last:i])
-            parts.append(blank() if (heavy or rng.random() < 0.3) else ' ')
-            last = i + 1
+            if width:
+                parts.append(blank() if (heavy or rng.random() < 0.3) else ' ')
+            elif rng.random() < (0.35 if heavy else 0.1):
+                parts.append(blank())
+            last = i + width
         parts.append(st[last:])
         out.append(''.join(parts))
     sep = []
